@@ -210,8 +210,8 @@ class Evaluator:
         if isinstance(f, ast.Attribute):
             recv = self.ev(f.value)
             args = [self.ev(a) for a in e.args]
-            if isinstance(recv, Token) and f.attr in recv.methods and not e.keywords:
-                return recv.methods[f.attr](*args)
+            if isinstance(recv, Token) and f.attr in recv.methods:
+                return recv.methods[f.attr](*(args + [self.ev(k.value) for k in e.keywords]))
             if isinstance(recv, list) and f.attr == 'append' and len(args) == 1 and not e.keywords:
                 recv.append(args[0])
                 return None
